@@ -49,6 +49,13 @@ def check(ctx, rep):
             tgt = kw.get("target")
             bound = isinstance(tgt, tuple) and tgt[0] == "attr" and tgt[1] == SELF and not target.is_classmethod and not target.is_staticmethod
             rep.ob("R-REFS-THREAD", "%s: thread target does not capture the executor" % owner.name, not bound and tgt is not None, "target=%s is a method bound to the instance: the thread keeps the executor alive for ever" % (fmt(tgt) if tgt else None), where_of(initfi, th[0].node))
+            # a non-daemon thread is joined by the interpreter *before* the atexit hooks run, so the exit hook that
+            # wakes the workers would never get to run: every worker thread must be a daemon thread before it starts
+            dst = [e for e in p.evs("store") if e.d["target"][0] == "attr" and e.d["target"][2] == "daemon"]
+            starts = [e for e in p.calls() if q.call_name(e) == "start" and e.seq > th[0].seq]
+            dval = kw.get("daemon", dst[-1].d["value"] if dst else None)
+            okd = dval == ("const", True) and (not dst or not starts or dst[-1].seq < starts[0].seq)
+            rep.ob("R-REFS-THREAD", "%s: the worker is a daemon thread" % owner.name, okd, "the worker thread is %s: at interpreter exit python joins non-daemon threads before it runs the atexit hooks, so the hook that wakes an idle worker never runs and the process hangs in exit" % ("not made a daemon thread" if dval != ("const", True) else "started before it is made a daemon thread"), where_of(initfi, th[0].node), trace_of(p))
             args = kw.get("args")
             ok = isinstance(args, tuple) and args[0] == "tuple" and all(isinstance(a, tuple) and a[0] == "extnew" and a[1] == "weakref" for a in args[1])
             rep.ob("R-REFS-THREAD", "%s: thread arguments are weak references only" % owner.name, ok, "args=%s" % (fmt(args) if args else None), where_of(initfi, th[0].node))
@@ -119,6 +126,17 @@ def check(ctx, rep):
         rep.ob("R-REFS-EVENT", "on_exiting raises the shutdown flag", len(st) == 1, "", where_of(oe))
         for s_ in sets:
             rep.ob("R-REFS-EVENT", "on_exiting raises the flag before it sets the events", bool(st) and st[0].seq < s_.seq, "an event is set before the flag is raised: a worker woken now re-reads the flag as false, clears its event and waits again -- for ever", where_of(oe, s_.node), trace_of(p, s_.seq))
+        # every registered event that is still alive is set (a dead reference is skipped, not dereferenced)
+        for c in p.calls():
+            f = c.d["func"]
+            if isinstance(f, tuple) and f[0] == "elem" and roles.container_of(f[1]) == EVENTS:
+                r = q.result_of(c)
+                alive = q.truth_of(p, r)
+                onr = [s_ for s_ in sets if q.recv(s_) == r]
+                if alive is False:
+                    rep.ob("R-REFS-EVENT", "on_exiting skips a dead event reference", not onr, "set() is called on a reference found dead (None): the hook raises and the remaining workers are never woken", where_of(oe, c.node), trace_of(p, c.seq))
+                else:
+                    rep.ob("R-REFS-EVENT", "on_exiting sets every live registered event", len(onr) >= 1, "a registered event that is still alive is not set by the exit hook: the worker waiting on it is never woken at interpreter exit", where_of(oe, c.node), trace_of(p, c.seq))
         lp = [e for e in p.evs("loop") if e.d[0] == "enter"]
         rep.ob("R-REFS-EVENT", "on_exiting walks the registered events", any(roles.container_of(l.d[1]) == EVENTS for l in lp), "", where_of(oe))
     ps, it = ctx.paths(ge, h, depth=2, inline=lambda callee, ev, path: callee.owner is h)
@@ -236,6 +254,24 @@ def check(ctx, rep):
         pj = [e for e, j in roles.removal_actions(p, it, RQ, RREM) if j == job or (j is None and roles._removes(e, job, p))]
         rep.ob("R-REFS-JOBS", "_delegate_callback: a resolved/cancelled future's job is removed", bool(pj), "the future of %s is finished on this path but its job stays in the list, keeping future, callable and arguments alive" % fmt(job), where_of(cb), trace_of(p))
     rep.require(nres >= 3, "_delegate_callback: resolving paths not found")
+    # the worker loop's own resolving branch (a job whose retrying was stopped is finished by the worker): the job
+    # must leave the list in the same iteration, or it is selected again and again and stays referenced for ever
+    rep.require(layer.loop is not None, "RetryExecutor: worker loop not identified")
+    ps, it = ctx.paths(layer.loop, layer.loop.owner, depth=6, inline=_no_cb_inline, maxpaths=20000)
+    nloop = 0
+    for p in ps:
+        if p.status not in ("loop", "return"):
+            continue
+        jobs = set()
+        for e in p.calls():
+            r = q.recv(e)
+            if isinstance(r, tuple) and r[0] == "attr" and r[2] == FUTF and isinstance(r[1], tuple) and r[1][0] == "elem" and terminal_on(e, r, it, p):
+                jobs.add(r[1])
+        for job in jobs:
+            nloop += 1
+            pj = [e for e, j in roles.removal_actions(p, it, RQ, RREM) if j == job or (j is None and roles._removes(e, job, p))]
+            rep.ob("R-REFS-JOBS", "%s: a job whose future the worker resolves is removed in the same iteration" % layer.loop.qualname, bool(pj), "the worker resolves the future of %s but leaves its job in the list: the job is selected again on every iteration (a busy loop) and future, callable and arguments stay referenced for ever" % fmt(job), where_of(layer.loop), trace_of(p))
+    rep.require(nloop >= 1, "retry worker loop: the branch that resolves a stopped job's future was not found")
     cm = fut.methods.get("cancel")
     ps, it = ctx.paths(cm, rfut, depth=6, inline=_no_cb_inline)
     nt = 0
